@@ -46,13 +46,19 @@ func verifLogEvent(i int, kind int) sdk.ContractEvent {
 	d := zzverif.U8("cldigit")
 	zzverif.Assume(d >= '0' && d <= '9')
 	cl := string([]byte{d})
+	tc := "2"
 	if kind == verifKBadNumber {
 		zzverif.Assume(d >= '6')
 		cl = "25" + cl
+	} else if i == 0 && zzverif.Len("maxFields", 0, 1) == 1 {
+		// the first event may carry the largest values that still fit the VAA format: level 250..255, target chain 65535
+		zzverif.Assume(d <= '5')
+		cl = "25" + cl
+		tc = "65535"
 	}
 	f := []sdk.Val{
 		{ValByteVec: &sdk.ValByteVec{Type: "ByteVec", Value: sender.ToHex()}},
-		{ValU256: &sdk.ValU256{Type: "U256", Value: "2"}},
+		{ValU256: &sdk.ValU256{Type: "U256", Value: tc}},
 		{ValU256: &sdk.ValU256{Type: "U256", Value: strconv.Itoa(1000 + i)}},
 		{ValByteVec: &sdk.ValByteVec{Type: "ByteVec", Value: "00000001"}},
 		{ValByteVec: &sdk.ValByteVec{Type: "ByteVec", Value: payload}},
